@@ -3,6 +3,7 @@ package main
 import (
 	"fmt"
 	"go/types"
+	"golang.org/x/tools/go/ssa"
 	"strings"
 )
 
@@ -247,12 +248,7 @@ func (c *Checker) filterCase(s pmt14Shape, pc pidCase) string {
 	if len(s.starts()) == 0 || s.capacity() < 1+s.ptr+12+s.pil+4 {
 		return "internal: shape does not fit its packets"
 	}
-	var calls []crcCall
-	var objs []*Obj
-	sum := Analyze(c.P, fn, &AnalyzeOpts{Pre: pmt14Pre(s, pc.pids, &objs), SliceLen: map[string]int{"packets": len(s.afLens), "pids": len(pc.pids)}, Setup: func(in *Interp) {
-		s35EncSetup(&calls)(in)
-		pmtOpaqueCtors(in) // the stream/descriptor constructors only store their arguments (C06)
-	}})
+	sum, calls, objs := c.filterRun(fn, s, pc)
 	if sum.Failed != "" {
 		return "analysis: " + sum.Failed
 	}
@@ -385,6 +381,92 @@ func (c *Checker) filterCase(s pmt14Shape, pc pidCase) string {
 	}
 	if len(outPk) != nOut {
 		return fmt.Sprintf("%d packets returned, the filtered PMT fills %d", len(outPk), nOut)
+	}
+	return ""
+}
+
+// filterRun interprets FilterPMTPacketsToPids on one shape and PID list.
+func (c *Checker) filterRun(fn *ssa.Function, s pmt14Shape, pc pidCase) (*Summary, []crcCall, []*Obj) {
+	var calls []crcCall
+	var objs []*Obj
+	sum := Analyze(c.P, fn, &AnalyzeOpts{Pre: pmt14Pre(s, pc.pids, &objs), SliceLen: map[string]int{"packets": len(s.afLens), "pids": len(pc.pids)}, Setup: func(in *Interp) {
+		s35EncSetup(&calls)(in)
+		pmtOpaqueCtors(in) // the stream/descriptor constructors only store their arguments (C06)
+	}})
+	return sum, calls, objs
+}
+
+// filterCRCCase decides only the checksum clause for one shape and PID list:
+// the section that the returned packets carry (located by its own
+// pointer_field and section_length) ends in the result of the one ComputeCRC
+// call whose input is exactly the section's bytes before those four.
+func (c *Checker) filterCRCCase(s pmt14Shape, pc pidCase) string {
+	fn, err := c.P.Func("psi:FilterPMTPacketsToPids")
+	if err != nil {
+		return err.Error()
+	}
+	c.analysed[fn.String()] = true
+	sum, calls, _ := c.filterRun(fn, s, pc)
+	if sum.Failed != "" {
+		return "analysis: " + sum.Failed
+	}
+	n := &nav{sum.in, sum.Out}
+	outPk, ok := n.elems(sum.RetN(0))
+	if !ok || len(outPk) == 0 {
+		return "no packets returned: " + showVal(sum.RetN(0))
+	}
+	var pay []*BV
+	for k, b := range s.starts() {
+		if k >= len(outPk) {
+			break
+		}
+		p, ok := outPk[k].(*Ptr)
+		if !ok {
+			return fmt.Sprintf("packet %d is %s", k, showVal(outPk[k]))
+		}
+		for i := b; i < 188; i++ {
+			bv, _ := n.in.loadPath(n.st, p.Obj, joinPath(p.Path, i), byteT).(*BV)
+			if bv == nil {
+				return fmt.Sprintf("packet %d byte %d unreadable", k, i)
+			}
+			pay = append(pay, bv)
+		}
+	}
+	ptr, ok := pay[0].ConstInt()
+	if !ok {
+		return "pointer_field of the output is not a constant of the layout"
+	}
+	at := 1 + int(ptr)
+	if at+3 > len(pay) {
+		return "the output is too short for a section header"
+	}
+	hi, ok1 := constLowBits(pay[at+1], 4)
+	lo, ok2 := pay[at+2].ConstInt()
+	if !ok1 || !ok2 {
+		return "section_length of the output is not a constant of the layout"
+	}
+	sl := int(hi&0x0f)<<8 | int(lo)
+	end := at + 3 + sl
+	if sl < 4 || end > len(pay) {
+		return fmt.Sprintf("section_length %d does not fit the returned packets", sl)
+	}
+	if len(calls) != 1 {
+		return fmt.Sprintf("ComputeCRC is called %d times", len(calls))
+	}
+	inp := calls[0].input
+	if len(inp) != sl+3-4 {
+		return fmt.Sprintf("CRC computed over %d bytes, the emitted section has %d before its CRC_32", len(inp), sl+3-4)
+	}
+	for i, v := range inp {
+		bv, ok := v.(*BV)
+		if !ok || !sameBV(bv, pay[at+i]) {
+			return fmt.Sprintf("CRC input byte %d is not byte %d of the emitted section", i, i)
+		}
+	}
+	for i := 0; i < 4; i++ {
+		if !sameBV(pay[end-4+i], cellBV(calls[0].out.Name, i)) {
+			return fmt.Sprintf("CRC_32 byte %d of the emitted section is not byte %d of the ComputeCRC result", i, i)
+		}
 	}
 	return ""
 }
